@@ -59,11 +59,11 @@ def register_more(reg):
     C = reg.contract
     # Memo.__call__ (C09): the result is the function evaluated NOW -- nothing cached may be returned
     C("torrentfile.utils.Memo.__call__",
-      props=["C09", "C01", "C15"],
+      props=["C09", "C01", "C15", "C08"],
       params={"self": {"cls": "torrentfile.utils.Memo", "fields": {"func": "any", "counter": "int", "cache": "dict"}}, "path": "str"},
       returns="any",
       setup=_memo_setup,
-      ensures=[(["C09", "C01", "C15"], "result_is_function_evaluated_now", "result == memo_func_now(path)")],
+      ensures=[(["C09", "C01", "C15", "C08"], "result_is_function_evaluated_now", "result == memo_func_now(path)")],
       raises={"BaseException": {}},
       notes="self.func is an opaque callable with the ghost value memo_func_now(path) = func(path) in the current file-system "
             "state; self.cache is arbitrary (havocked history)")
